@@ -131,7 +131,11 @@ func CheckC12(run *ev.Run) {
 				c.S.Replay(map[string]interface{}{"model": model.R, "real": real.R, "real_why": real.Why}))
 		}
 		if real.R == "panic" || real.R == "crash" || real.R == "timeout" {
-			run.Deviation(PanicKey(real.Why), c.What, c.S.Replay(map[string]interface{}{"real": real.R, "why": real.Why}))
+			k := PanicKey(real.Why)
+			if real.R != "panic" {
+				k = c.Key // a crash or a hang has no panic site: the stored key names the witness
+			}
+			run.Deviation(k, c.What, c.S.Replay(map[string]interface{}{"real": real.R, "why": real.Why}))
 		}
 	}
 	disagreements := 0
